@@ -158,18 +158,35 @@ def dtor_info(f, rel):
         elif e.is_assign and e.op == "=" and norm(e.kid(0))[0] == "v" and norm(e.kid(1)) in names:
             names.add(norm(e.kid(0)))
 
+    def member(n):
+        """dotted member path of X->a.b.c, or None"""
+        parts = []
+        while isinstance(n, tuple) and n and n[0] == "." and len(n) == 3:
+            parts.append(n[2])
+            n = n[1]
+        if parts and n == ("*", X):
+            return ".".join(reversed(parts))
+        return None
+
+    def is_rel(e):
+        return e.cls == "CallExpr" and e.callee and (e.callee in rel or own.GENERIC_RELEASERS.search(e.callee) or e.callee == "close")
+
     def tr(st, e):
-        if e.cls == "CallExpr" and e.callee and (e.callee in rel or own.GENERIC_RELEASERS.search(e.callee)):
+        if is_rel(e):
             for a in e.args:
                 if a is None:
                     continue
                 n = norm(a)
+                if e.callee == "close":
+                    if member(n) is not None:
+                        st = st | frozenset(["close:" + member(n)])
+                    continue
                 if n in names:
                     st = st | frozenset(["self"])
-                elif n[0] == "." and n[1] == ("*", X):
-                    st = st | frozenset([n[2]])
-                elif n[0] == "&" and n[1][0] == "." and n[1][1] == ("*", X):
-                    st = st | frozenset([n[1][2]])
+                elif member(n) is not None:
+                    st = st | frozenset([member(n)])
+                elif n[0] == "&" and member(n[1]) is not None:
+                    st = st | frozenset([member(n[1])])
         return st
     from .dataflow import cond_atoms as _ca
 
@@ -199,21 +216,23 @@ def dtor_info(f, rel):
     cond_rel = set()
     from .dataflow import cond_atoms
     for c in f.calls():
-        if not (c.callee and (c.callee in rel or own.GENERIC_RELEASERS.search(c.callee))):
+        if not is_rel(c):
             continue
         for a in c.args:
             if a is None:
                 continue
             n = norm(a)
             m = None
-            if n == X:
+            if n == X and c.callee != "close":
                 m = "self"
-            elif n[0] == "." and n[1] == ("*", X):
-                m = n[2]
+            elif member(n) is not None:
+                m = ("close:" if c.callee == "close" else "") + member(n)
             if m is None:
                 continue
             at = [(op, L, R) for cond, truth in f.edge_conds(c) for op, L, R, _, _ in cond_atoms(cond, truth)]
-            if all(R == ("c", 0) and op in ("!=",) and (L == X or L == n) for op, L, R in at):
+            absent = ("c", -1) if c.callee == "close" else ("c", 0)
+            if all(R == absent and op in ("!=",) and (L == X or L == n) for op, L, R in at if not (L == X and R == ("c", 0))) and \
+                    all(op == "!=" for op, L, R in at if L == X and R == ("c", 0)):
                 cond_rel.add(m)
     return show(X), sorted(set(best) | cond_rel)
 
